@@ -252,4 +252,103 @@ theorem valuesOfPairs_flatten (m : Values) (k : Bytes) :
     · simp [valuesOf, List.filter_cons, hx, List.filter_map, Function.comp_def]
     · simp [valuesOf, List.filter_cons, hx, List.filter_map, Function.comp_def]
 
+/-! ### Values.Add and the client + request merge -/
+
+theorem valuesOf_cons (x : Bytes × List Bytes) (m : Values) (k : Bytes) :
+    valuesOf (x :: m) k = (if x.1 == k then x.2 else []) ++ valuesOf m k := by
+  unfold valuesOf
+  by_cases h : (x.1 == k) = true
+  · simp [List.filter_cons, h]
+  · simp [List.filter_cons, h]
+
+theorem valuesOf_notin (m : Values) (k : Bytes) (h : k ∉ m.map (·.1)) : valuesOf m k = [] := by
+  induction m with
+  | nil => simp [valuesOf]
+  | cons x xs ih =>
+    simp only [List.map_cons, List.mem_cons, not_or] at h
+    have hx : (x.1 == k) = false := by
+      rw [Bool.eq_false_iff]; intro e
+      have e' : x.1 = k := by simpa using e
+      exact h.1 e'.symm
+    rw [valuesOf_cons, hx, ih h.2]; simp
+
+theorem keys_add (m : Values) (k v : Bytes) :
+    (add m k v).map (·.1) = if k ∈ m.map (·.1) then m.map (·.1) else m.map (·.1) ++ [k] := by
+  induction m with
+  | nil => simp [add]
+  | cons x xs ih =>
+    unfold add
+    by_cases h : (x.1 == k) = true
+    · have : x.1 = k := by simpa using h
+      simp [h, this]
+    · have hne : x.1 ≠ k := by simpa using h
+      simp only [h, Bool.false_eq_true, ↓reduceIte, List.map_cons, ih, List.mem_cons]
+      by_cases hk : k ∈ xs.map (·.1)
+      · simp [hk]
+      · have : ¬ (k = x.1 ∨ k ∈ xs.map (·.1)) := by
+          intro hor; rcases hor with e | e
+          · exact hne e.symm
+          · exact hk e
+        simp [hk]
+        exact fun e => hne e.symm
+
+theorem nodup_add (m : Values) (k v : Bytes) (h : (m.map (·.1)).Nodup) :
+    ((add m k v).map (·.1)).Nodup := by
+  rw [keys_add]
+  split
+  · exact h
+  next hk =>
+    rw [List.nodup_append]
+    exact ⟨h, by simp, by intro a ha b hb; simp at hb; subst hb; exact fun e => hk (e ▸ ha)⟩
+
+theorem valuesOf_add (m : Values) (k v k' : Bytes) (h : (m.map (·.1)).Nodup) :
+    valuesOf (add m k v) k' = valuesOf m k' ++ (if k == k' then [v] else []) := by
+  induction m with
+  | nil =>
+    by_cases hk : (k == k') = true
+    · simp [add, valuesOf, List.filter_cons, hk]
+    · simp [add, valuesOf, List.filter_cons, hk]
+  | cons x xs ih =>
+    simp only [List.map_cons, List.nodup_cons] at h
+    unfold add
+    by_cases hx : (x.1 == k) = true
+    · have hxk : x.1 = k := by simpa using hx
+      simp only [hx, ↓reduceIte, valuesOf_cons]
+      by_cases hk' : (k == k') = true
+      · have : k = k' := by simpa using hk'
+        subst this
+        have hnot : valuesOf xs k = [] := valuesOf_notin xs k (hxk ▸ h.1)
+        simp [hx, hnot]
+      · have : (x.1 == k') = false := by
+          rw [Bool.eq_false_iff]; intro e
+          have : x.1 = k' := by simpa using e
+          exact hk' (by simp [← hxk, this])
+        simp [hk', this]
+    · simp only [hx, Bool.false_eq_true, ↓reduceIte, valuesOf_cons, ih h.2, List.append_assoc]
+
+theorem valuesOf_addMany (m : Values) (k : Bytes) (vs : List Bytes) (k' : Bytes)
+    (h : (m.map (·.1)).Nodup) :
+    ((vs.foldl (fun a v => add a k v) m).map (·.1)).Nodup ∧
+    valuesOf (vs.foldl (fun a v => add a k v) m) k' = valuesOf m k' ++ (if k == k' then vs else []) := by
+  induction vs generalizing m with
+  | nil => simp [h]
+  | cons v vs ih =>
+    obtain ⟨h1, h2⟩ := ih (add m k v) (nodup_add m k v h)
+    refine ⟨h1, ?_⟩
+    rw [List.foldl_cons, h2, valuesOf_add m k v k' h]
+    by_cases hk : (k == k') = true <;> simp [hk]
+
+theorem valuesOf_addAll (dst src : Values) (k' : Bytes) (h : (dst.map (·.1)).Nodup) :
+    ((addAll dst src).map (·.1)).Nodup ∧
+    valuesOf (addAll dst src) k' = valuesOf dst k' ++ valuesOf src k' := by
+  induction src generalizing dst with
+  | nil => simp [addAll, valuesOf, h]
+  | cons x xs ih =>
+    obtain ⟨h1, h2⟩ := valuesOf_addMany dst x.1 x.2 k' h
+    obtain ⟨h3, h4⟩ := ih _ h1
+    refine ⟨by simpa [addAll] using h3, ?_⟩
+    have : addAll dst (x :: xs) = addAll (x.2.foldl (fun a v => add a x.1 v) dst) xs := by simp [addAll]
+    rw [this, h4, h2, valuesOf_cons, List.append_assoc]
+
+
 end Req.Form
